@@ -286,6 +286,46 @@ def eval_cases(prop, header, case_terms, fn, ty, per_shard=400, timeout=900):
     return res
 
 
+def eval_cases_list(prop, header, case_terms, fn, ty, per_shard=8, timeout=1200):
+    """Like eval_cases, but fn returns `list N` per case. Returns list of lists of ints."""
+    work = os.path.join(CACHE, "cases", prop)
+    shutil.rmtree(work, ignore_errors=True)
+    os.makedirs(work)
+    nsh = max(1, (len(case_terms) + per_shard - 1) // per_shard)
+    nsh = max(nsh, min(NCPU, len(case_terms)))
+    shards = [case_terms[i::nsh] for i in range(nsh)]
+    paths = []
+    for i, sh_terms in enumerate(shards):
+        p = os.path.join(work, "cases_%s_%d.v" % (prop, i))
+        with open(p, "w") as f:
+            f.write(header + "\n")
+            f.write("Definition cases : list (%s) := [\n" % ty)
+            f.write(";\n".join(sh_terms))
+            f.write("\n].\n")
+            f.write("Definition out := Eval vm_compute in map (%s) cases.\n" % fn)
+            f.write("Print out.\n")
+        paths.append(p)
+    def one(p):
+        rc, out = coqc_file(p, timeout)
+        if rc != 0:
+            raise RuntimeError("coqc failed on %s:\n%s" % (p, out[-3000:]))
+        m = re.search(r"out\s*=\s*(\[.*\])\s*:\s*list", out, re.S)
+        if not m:
+            raise RuntimeError("cannot parse coqc output of %s:\n%s" % (p, out[-2000:]))
+        body = m.group(1).replace("%N", "")
+        inner = re.findall(r"\[([0-9;\s]*)\]", body[1:-1]) if body.strip() != "[]" else []
+        return [[int(x) for x in re.findall(r"\d+", it)] for it in inner]
+    with ThreadPoolExecutor(NCPU) as ex:
+        rs = list(ex.map(one, paths))
+    res = [None] * len(case_terms)
+    for i, r in enumerate(rs):
+        if len(r) != len(shards[i]):
+            raise RuntimeError("shard %d: %d verdicts for %d cases" % (i, len(r), len(shards[i])))
+        for j, v in enumerate(r):
+            res[i + j * nsh] = v
+    return res
+
+
 # ----------------------------------------------------------------------------
 # stage 4: verdict
 # ----------------------------------------------------------------------------
